@@ -107,6 +107,13 @@ def build_compact(spec):
         else:
             d[name + "/val"] = ((name + "/collocation", name + "/channel"), val)
         d[name + "/scalar_attr"] = ((), float(base))
+        if spec.get("cube"):
+            # two extra dimensions, the collocation dimension last / in the middle
+            u, v = spec["cube"]
+            cube = rng.normal(size=(u, v, m)) + base
+            d[name + "/cube"] = ((name + "/u", name + "/v", name + "/collocation"), cube)
+            d[name + "/mid"] = ((name + "/u", name + "/collocation", name + "/v"),
+                                rng.normal(size=(u, m, v)) - base)
         return d
     data = {}
     data.update(group(A, nA, 1000))
@@ -129,6 +136,7 @@ def gen_spec(rng):
             "pattern": rng.choice(["one-to-many", "many-to-one", "random"]),
             "shuffle": rng.random() < 0.7, "channels": rng.choice([1, 2, 5]),
             "nan": rng.choice([0, 0, 0.2, 0.6]), "chan_first": rng.random() < 0.3,
+            "cube": rng.choice([None, None, [2, 2], [2, 3], [3, 1]]),
             # incl. group names of which one is a prefix of the other
             "names": rng.choice([["primary", "secondary"], ["MHS", "AVHRR"], ["A", "B"],
                                  ["MHS", "MHS_N18"], ["SAT2", "SAT"]])}
